@@ -95,7 +95,7 @@ struct E5 : Engine {
 		p["location"] = locs[r.below(3)]; p["expire"] = exps[r.below(3)]; p["storage"] = stors[r.below(5)]; p["enc"] = encs[r.below(13)]; p["key_seed"] = (int)r.below(1000);
 		p["timeout"] = 5 + (int)r.below(r.below(2) ? 40 : 4000); p["client_size_limit"] = (int)(r.below(2) ? 30 + r.below(200) : 2048); p["remove_unknown"] = (int)r.below(2);
 		p["p_file_short"] = r.below(4) == 0 ? (int)r.below(300) : 0; p["p_file_eintr"] = r.below(4) == 0 ? (int)r.below(100) : 0;
-		int nb = 1 + r.below(3); p["browsers"] = nb; p["conc"] = (int)(nb > 1 && r.below(3) == 0); p["strategy"] = (int)r.below(3); p["pct_depth"] = 1 + (int)r.below(3); p["pct_len"] = 50 + (int)r.below(2000);
+		int nb = 1 + r.below(3); p["browsers"] = nb; p["conc"] = (int)(nb > 1 && r.below(3) == 0); p["reuse"] = (int)(!p.geti("conc") && r.below(4) == 0);   // one long-lived session_interface re-targeted to each request with set_cookie_adapter_and_reload() p["strategy"] = (int)r.below(3); p["pct_depth"] = 1 + (int)r.below(3); p["pct_len"] = 50 + (int)r.below(2000);
 		J reqs = J::arr(); int n = 2 + r.below(thorough ? 30 : 12);
 		for(int i=0;i<n;i++){ J q = J::obj(); unsigned x = r.below(100);
 			if(x < 12){ q["kind"] = "tick"; unsigned y = r.below(10); int to = (int)p.geti("timeout"); q["s"] = y < 4 ? (int)r.below(to/10+2) : y < 7 ? (int)r.below(to) : y < 9 ? to + (int)r.below(3) - 1 : (int)r.below(10*to); }
@@ -230,6 +230,7 @@ struct E5 : Engine {
 		auto now = []{ return simk::now_us()/1000000; };
 		const J &reqs = plan.get("reqs");
 		bool conc = plan.geti("conc") && nb > 1; int in_flight = 0;
+		bool reuse = plan.geti("reuse") && !conc; Jar nobody; std::unique_ptr<session_interface> shared_s; if(reuse) shared_s.reset(new session_interface(pool,nobody));
 		// me == -2: one thread runs everything in plan order; otherwise browser `me` runs its own requests and me == -1 (the
 		// environment) runs clock advances, gc and attacker requests - all concurrently under the simulated scheduler
 		auto worker = [&](int me){
@@ -254,8 +255,8 @@ struct E5 : Engine {
 			struct Flight { int &n; Flight(int &x) : n(x) { n++; } ~Flight(){ n--; } } flight(in_flight);
 			jar.begin_request();
 			std::string presented = jar.get_session_cookie(PREFIX);
-			session_interface s(pool,jar); bool loaded = false;
-			try { loaded = s.load(); } catch(std::exception const &e){ res.fail("load-threw",where + ": load() threw " + e.what()); break; }
+			std::unique_ptr<session_interface> fresh; if(!reuse) fresh.reset(new session_interface(pool,jar)); session_interface &s = reuse ? *shared_s : *fresh; bool loaded = false;
+			try { loaded = reuse ? s.set_cookie_adapter_and_reload(jar) : s.load(); if(reuse) cnt["reloads_of_reused_object"]++; } catch(std::exception const &e){ res.fail("load-threw",where + ": load() threw " + e.what()); break; }
 			// what must be there
 			bool cookie_there = !presented.empty();
 			bool must_live = m.exists && cookie_there && now() <= m.deadline_lo, must_dead = !m.exists || !cookie_there || now() > m.deadline_hi;
